@@ -23,8 +23,8 @@
      threaded ignores WouldBlock / Interrupted on write, for tokio an Interrupted write is an
      error (would-block is `Pending`: no event); EOF is ConnectionClosed for tokio and
      classified by is_connection_established for threaded; threaded computes
-     `Instant::now() + connect_timeout` / `+ reconnect wait` on entering Connecting /
-     PendingReconnect (threaded/mod.rs:92,333: panics on overflow);
+     add_duration_saturating(Instant::now(), connect_timeout / reconnect wait) on entering Connecting /
+     PendingReconnect (threaded/mod.rs:92,333; saturating since fix 8daf4ff);
    * the loop exits when a transition returns Err ([Dead]), when the requested or reached
      state is Shutdown ([Exited]); a panic kills the task / thread ([Panicked]).
    Ghost fields record what the transport and the engine saw, per connection. *)
@@ -109,7 +109,7 @@ Section Driver.
     | CConnecting =>
         let s1 := mkD (d_c s0) (d_buf s0) (d_cursor s0) false 0 (d_status s0) (d_log s0)
                       (d_wire s0) (d_outs s0) (d_fed s0) (d_wcs s0) ended in
-        if thr then match add_instant 92 now (c_timeout (d_c s0)) with
+        if thr then match add_saturating 92 now (c_timeout (d_c s0)) with
                     | Ok _ => s1 | _ => set_status s1 Panicked end
         else s1
     | CPendingReconnect =>
@@ -117,7 +117,7 @@ Section Driver.
         let (c', wait) := advance_reconnect_period E (d_c s0) now in
         let s1 := mkD c' (d_buf s0) (d_cursor s0) false 0 (d_status s0) (d_log s0)
                       (d_wire s0) (d_outs s0) (d_fed s0) (d_wcs s0) ended in
-        if thr then match add_instant 333 now wait with
+        if thr then match add_saturating 333 now wait with
                     | Ok _ => s1 | _ => set_status s1 Panicked end
         else s1
     | CShutdown =>
@@ -171,7 +171,7 @@ Section Driver.
   Definition advance_pos (s : dstate) (e : dev) : dstate := if thr then set_pos s (phase e + 1) else s.
 
   Definition do_op (s : dstate) (now : N) (o : cop U D) : dstate :=
-    after_event (upd_c s (handle_op E U D e_user e_disc e_reset (d_c s) now o) []) now.
+    after_event (upd_c s (handle_op E U D e_tag e_user e_disc e_reset (d_c s) now o) []) now.
 
   Definition with_buf (s : dstate) (c : st E) (buf : bytes) (cursor : N) (fl : bool) (wire : bytes)
                       (outs fed wcs : list bytes) : dstate :=
